@@ -527,9 +527,11 @@ func (c *FCGIClient) Post(p map[string]string, method string, bodyType string, b
 		p = make(map[string]string)
 	}
 
-	p["REQUEST_METHOD"] = strings.ToUpper(method)
-
-	if len(p["REQUEST_METHOD"]) == 0 || p["REQUEST_METHOD"] == "GET" {
+	// (a method is a case-sensitive token, RFC 7230 3.1.1: it reaches the
+	// responder as the client wrote it; this function is for requests with
+	// a body, so without a method, or called with GET, it means POST)
+	p["REQUEST_METHOD"] = method
+	if method == "" || method == "GET" {
 		p["REQUEST_METHOD"] = "POST"
 	}
 
